@@ -1551,6 +1551,8 @@ pub fn type_table() -> Vec<TypeEntry> {
     entry!(v, "ByteArray<4>", ByteArray<4>);
     entry!(v, "ByteArray<16>", ByteArray<16>);
     entry!(v, "ByteArray<24>", ByteArray<24>);
+    entry!(v, "ByteArray<256>", ByteArray<256>);
+    entry!(v, "ByteArray<65536>", ByteArray<65536>);
     entry!(v, "bytes-codec Vec<u8>", WB<Vec<u8>>);
     entry!(v, "bytes-codec ByteVec", WB<ByteVec>);
     entry!(v, "bytes-codec Cow<[u8]>", WB<std::borrow::Cow<'static, [u8]>>);
@@ -1594,6 +1596,10 @@ pub fn type_table() -> Vec<TypeEntry> {
     entry!(v, "[u8;3]", [u8; 3]);
     v.last_mut().unwrap().values = vals_arr::<[u8; 3]>;
     entry!(v, "[u8;24]", [u8; 24]);
+    // more elements than an 8- / 16-bit element counter holds
+    entry!(v, "[u8;256]", [u8; 256]);
+    entry!(v, "[u8;65536]", [u8; 65536]);
+    entry!(v, "Box<[u16;65537]>", Box<[u16; 65537]>);
     entry!(v, "[String;3]", [String; 3], 24);
     entry!(v, "[Option<u8>;3]", [Option<u8>; 3]);
     entry!(v, "Vec<u8>", Vec<u8>);
